@@ -1,6 +1,7 @@
 """C16 — orientation into the inertial frame.
 
-translate : Molecule._inertial_tensor + GEOMETRY_NOISE (qcelemental/models/molecule.py) -> coq/Gen/Inertia.v
+translate : Molecule._inertial_tensor + GEOMETRY_NOISE (qcelemental/models/molecule.py) -> coq/Gen/Inertia.v; the body of
+            _orient_molecule_internal -> coq/Gen/OrientBody.v; float_prep + the orient branch of __init__ -> coq/Gen/OrientStore.v
 correspond: Model/Orient.v (run over Q, with numpy's own eigh answer for the tensor passed in and checked numerically against the
             eigh specification) against Molecule._orient_molecule_internal; the generated tensor against
             Molecule._inertial_tensor; and the property oracle on the implementation (isometry, non-geometric fields, centre
@@ -35,6 +36,12 @@ TRUSTED = [
     "numpy elementwise arithmetic, np.average, np.dot, float_prep rounding to 8 decimals: modelled over an exact field / compared with "
     "tolerance (1e-9 for the unrounded geometry, 3e-8 for rounded geometries)",
     "the executable Q instance Common/Geo3Q.v is used only to run the model",
+    "translator generate_store in harness/translate/inertia.py (fail-closed): float_prep's list/ndarray branch (np.around, comparison, "
+    "threshold base ** -(around + c), fill value) and the `if orient:` branch of Molecule.__init__ -> Gen/OrientStore.v; structurally "
+    "pinned: geometry_noise = kwargs.pop('geometry_noise', GEOMETRY_NOISE), orient_molecule = Molecule(orient=True, **self.dict()), "
+    "from_data / from_file / get_fragment only pass `orient` (default False) on",
+    "np.around is a parameter of the stored-geometry theorems, assumed only to return a value within half a unit (0.5e-8) of its "
+    "argument; the correspondence runs an exact round-half-even (Model/OrientCheck.v q_around) and accepts one unit of difference",
 ]
 ASSUMPTIONS = [
     "validated molecules: total mass non-zero (all masses positive); 1-12 atoms",
@@ -43,6 +50,8 @@ ASSUMPTIONS = [
     "tolerance 2e-8 * (1 + 4 sum m|x| max|x| / gap)",
     "cases in which some rotated coordinate lies within a factor 2 of the 1e-8 phase threshold are not compared with the exact model "
     "(the binary64 and exact decisions may legitimately differ there); they are counted",
+    "sign convention on the returned molecule: claimed only when no earlier atom of that column lies in the flush zone "
+    "1e-8 <= |x| < 5^-9 (otherwise: known finding C16-phase-flush-zone)",
 ]
 EXTRA_TARGETS = ["Model/Orient.vo", "Model/OrientCheck.vo"]
 REQ = ["QV.Common.Outcome", "QV.Common.Geo3", "QV.Common.Geo3Q", "QV.Common.Geo3Sum", "QV.Gen.Inertia", "QV.Model.Orient",
@@ -53,6 +62,7 @@ NOISE = 1e-8
 def translate(ctx):
     inertia.generate(ctx.repo, os.path.join(coqrun.COQ, "Gen", "Inertia.v"))
     inertia.generate_body(ctx.repo, os.path.join(coqrun.COQ, "Gen", "OrientBody.v"))
+    inertia.generate_store(ctx.repo, os.path.join(coqrun.COQ, "Gen", "OrientStore.v"))
 
 
 # ------------------------------------------------------------------------------------------------
@@ -154,6 +164,28 @@ def first_significant_positive(col, thr):
     return True
 
 
+FLUSH = 5.0 ** -9          # float_prep's zero-flip threshold for the geometry (5 ** -(GEOMETRY_NOISE + 1) = 5.12e-7)
+
+
+def flush_zone_pattern(raw_col, stored_col):
+    """The narrow shape of the known finding C16-phase-flush-zone on one axis: the internal convention holds (the first atom with
+    |raw| >= 1e-8 is positive), that atom lies below float_prep's zero-flip threshold and is stored as 0.0, every atom before the
+    first non-zero stored one is stored as 0.0 because it is below that threshold, and the first non-zero stored atom is an
+    unchanged (rounded) negative raw coordinate."""
+    raw_col, stored_col = [float(x) for x in raw_col], [float(x) for x in stored_col]
+    if len(raw_col) != len(stored_col):
+        return False
+    i = next((k for k, v in enumerate(raw_col) if abs(v) >= NOISE), None)
+    j = next((k for k, v in enumerate(stored_col) if v != 0.0), None)
+    if i is None or j is None or not j > i:
+        return False
+    if not (NOISE <= raw_col[i] < FLUSH + 0.5e-8 and stored_col[i] == 0.0):
+        return False
+    if any(abs(raw_col[k]) >= FLUSH + 0.5e-8 for k in range(j)):
+        return False
+    return stored_col[j] < 0 and raw_col[j] < 0 and abs(stored_col[j] - raw_col[j]) <= 0.5e-8 + 1e-12 * (1 + abs(raw_col[j]))
+
+
 def oracle(case):
     """returns (failures, observations)"""
     from qcelemental.models import Molecule
@@ -168,7 +200,7 @@ def oracle(case):
     omol = mol.orient_molecule()
     g1 = np.array(omol.geometry, dtype=float)
     n = len(w)
-    obs = {"g0": g0, "w": w, "raw": raw}
+    obs = {"g0": g0, "w": w, "raw": raw, "g1": g1}
     scale = 1.0 + float(np.abs(g0).max())
     # stored geometry = float_prep(internal result): rounded to 8 decimals, and (as float_prep does for every geometry) entries
     # below 5**-9 ~ 5.12e-7 in magnitude set to zero
@@ -211,6 +243,18 @@ def oracle(case):
     for ax in range(3):
         if not first_significant_positive(raw[:, ax], NOISE):
             bad(f"phase convention violated on axis {ax}: first atom with |coordinate| >= 1e-8 is negative", raw[:, ax].tolist())
+    # the sign convention as the property states it, on the molecule that is handed back: the first atom off each coordinate plane
+    # (non-zero stored coordinate) is positive
+    for ax in range(3):
+        if not first_significant_positive(g1[:, ax], 1e-300):
+            bad(f"sign convention violated on the stored geometry (axis {ax}): the first atom with a non-zero coordinate in the "
+                "returned molecule is negative", {"axis": ax, "stored": g1[:, ax].tolist(), "raw": raw[:, ax].tolist()})
+    # the stored geometry lies on the 8-decimal grid
+    if not np.array_equal(np.around(g1, 8), g1):
+        bad("oriented geometry is not rounded to 8 decimals", float(np.abs(np.around(g1, 8) - g1).max()))
+    # the caller's molecule is not modified (the internal routine works on a copy)
+    if not np.array_equal(np.array(mol.geometry, dtype=float), g0):
+        bad("orient_molecule() modified the geometry of the molecule it was called on", float(np.abs(np.array(mol.geometry) - g0).max()))
     # asymmetric top?
     mom = sorted([t[0][0], t[1][1], t[2][2]])
     gap = min(mom[1] - mom[0], mom[2] - mom[1])
@@ -225,13 +269,45 @@ def oracle(case):
     zeroing = bool(np.any((np.abs(raw) > 0) & (np.abs(raw) < 5.2e-7)) or np.any((np.abs(gin) > 0) & (np.abs(gin) < 5.2e-7)))
     utol = (1.1e-6 if zeroing else 2e-8) * amp
     rtol = utol if zeroing else 0.0
+
+    # A column whose first visible (non-zero stored) atom is preceded by an atom at or near the phase threshold (|raw| >= 0.4e-8) that
+    # the stored molecule shows ON the plane: its sign was decided (or nearly so) by an atom the returned molecule does not show off
+    # the plane (known finding C16-phase-flush-zone, reported through the stored sign convention above); the sign of such a column
+    # is not a function of the stored molecule, so it is compared up to sign below, and counted.
+    def sign_free(ax):
+        j = next((k for k in range(n) if g1[k, ax] != 0.0), None)
+        return j is not None and any(abs(raw[k, ax]) >= 0.4 * NOISE for k in range(j))
+    free = [sign_free(ax) for ax in range(3)]
+    obs["sign_free_axes"] = sum(free)
+
+    def route_diff(g):
+        g = np.array(g, dtype=float)
+        return max(min(float(np.abs(g[:, ax] - g1[:, ax]).max()), float(np.abs(g[:, ax] + g1[:, ax]).max())) if free[ax]
+                   else float(np.abs(g[:, ax] - g1[:, ax]).max()) for ax in range(3))
+    # what is stored, for the model of float_prep: default geometry_noise, and (some cases) a caller-chosen one
+    obs["stored"] = [(8, g1)]
+    gn = case.get("geometry_noise")
+    if gn is not None:
+        gs = np.array(Molecule(orient=True, geometry_noise=gn, **mol.dict()).geometry, dtype=float)
+        unit, thr = 10.0 ** -gn, 5.0 ** -(gn + 1)
+        okn = (np.abs(gs - raw) <= 0.5 * unit + 1e-12 * scale) | ((gs == 0) & (np.abs(raw) < thr + 0.5 * unit))
+        if not okn.all() or not np.array_equal(np.around(gs, gn), gs):
+            bad(f"Molecule(orient=True, geometry_noise={gn}, ...) is not the internal result rounded to {gn} decimals (|x| < 5**-{gn + 1} -> 0)",
+                float(np.abs(gs - raw).max()))
+        obs["stored"].append((gn, gs))
     # other routes
+    gin0 = np.array(kw["geometry"], dtype=float).copy()
     o2 = Molecule(orient=True, **kw)
-    if np.abs(np.array(o2.geometry) - g1).max() > rtol:
-        bad("Molecule(orient=True, ...) differs from orient_molecule()", float(np.abs(np.array(o2.geometry) - g1).max()))
+    if not np.array_equal(np.array(kw["geometry"], dtype=float), gin0):
+        bad("Molecule(orient=True, geometry=a, ...) modified the caller's array a", float(np.abs(np.array(kw["geometry"]) - gin0).max()))
+    if route_diff(o2.geometry) > rtol:
+        bad("Molecule(orient=True, ...) differs from orient_molecule()", route_diff(o2.geometry))
+    o5 = Molecule(orient=True, validate=False, **mol.dict())
+    if route_diff(o5.geometry) > rtol:
+        bad("Molecule(orient=True, validate=False, **mol.dict()) differs from orient_molecule()", route_diff(o5.geometry))
     o3 = Molecule.from_data(kw, dtype="dict", orient=True)
-    if np.abs(np.array(o3.geometry) - g1).max() > rtol:
-        bad("Molecule.from_data(..., orient=True) differs from orient_molecule()", float(np.abs(np.array(o3.geometry) - g1).max()))
+    if route_diff(o3.geometry) > rtol:
+        bad("Molecule.from_data(..., orient=True) differs from orient_molecule()", route_diff(o3.geometry))
     for nm, o in (("Molecule(orient=True, ...)", o2), ("Molecule.from_data(dict, orient=True)", o3)):
         da = o.dict()
         for k in ("fix_com", "fix_orientation", "fix_symmetry", "symbols", "real"):
@@ -257,8 +333,8 @@ def oracle(case):
             bad("psi4 text route (from_data(text, orient=True)): inertia tensor is not diagonal ascending", t4.tolist())
         if n > 1 and np.abs(pair_dists(g4) - pair_dists(g0)).max() > 1e-7 * scale:
             bad("psi4 text route: an interatomic distance changed", float(np.abs(pair_dists(g4) - pair_dists(g0)).max()))
-        if np.array_equal(w4, w) and np.abs(g4 - g1).max() > rtol:
-            bad("psi4 text route differs from orient_molecule()", float(np.abs(g4 - g1).max()))
+        if np.array_equal(w4, w) and route_diff(g4) > rtol:
+            bad("psi4 text route differs from orient_molecule()", route_diff(g4))
     # a rigidly moved copy
     mo = case.get("motion")
     if mo:
@@ -274,17 +350,21 @@ def oracle(case):
             for ax in range(3):
                 c1, c2 = g1[:, ax], g2[:, ax]
                 tiny = np.abs(c1).max() < 3e-8 and np.abs(c2).max() < 3e-8
+                if not tiny and free[ax] and np.abs(c1 + c2).max() <= utol:
+                    continue
                 if not tiny and np.abs(c1 - c2).max() > utol:
                     bad("two rigidly moved copies of an asymmetric top orient to different coordinates",
                         {"axis": ax, "a": c1.tolist(), "b": c2.tolist()})
     # orient twice
     if asym:
         g3 = np.array(omol.orient_molecule().geometry, dtype=float)
+        raw2 = np.array(omol._orient_molecule_internal(), dtype=float)
         for ax in range(3):
             c1, c3 = g1[:, ax], g3[:, ax]
             tiny = np.abs(c1).max() < 3e-8
             if not tiny and np.abs(c1 - c3).max() > utol:
-                bad("orienting twice changes the geometry", {"axis": ax, "once": c1.tolist(), "twice": c3.tolist()})
+                bad("orienting twice changes the geometry", {"axis": ax, "once": c1.tolist(), "twice": c3.tolist(),
+                                                             "raw": raw[:, ax].tolist(), "raw2": raw2[:, ax].tolist()})
     return fails, obs
 
 
@@ -312,12 +392,23 @@ def terms(case, obs):
     # the generated tensor on the uncentred geometry as well
     T0 = Molecule._inertial_tensor(g0, weight=w)
     out["chk_tensor"] = f"({atoms}, {cmat(T0)})"
+    # the STORED geometry (generated float_prep after the generated body) against what orient_molecule() / the constructor keep;
+    # not compared when a coordinate sits within 3e-9 of the phase threshold (above) or of the raw value at which the rounded
+    # coordinate crosses float_prep's zero-flip threshold (the exact and the binary64 internal results differ by ~1e-9)
+    for gn, gs in obs.get("stored", []):
+        unit, thr = 10.0 ** -gn, 5.0 ** -(gn + 1)
+        edge = (math.floor(thr / unit) + 0.5) * unit
+        if near or np.any(np.abs(np.abs(rot) - edge) < 3e-9):
+            out["near_threshold_stored"] = True
+            continue
+        out.setdefault("chk_stored", []).append(f"({atoms}, ({lam_s}, {V_s}), ({gn}%Z, {clist(gs, cvec)}))")
     return out
 
 
 CHK_TY = {
     "chk_orient_gen": "list (watom QK) * (vec3 QK * mat3 QK) * option (list (vec3 QK))",
     "chk_tensor": "list (watom QK) * mat3 QK",
+    "chk_stored": "list (watom QK) * (vec3 QK * mat3 QK) * (Z * list (vec3 QK))",
 }
 
 DENS = [1, 1, 2, 4, 5, 8, 10]
@@ -373,6 +464,25 @@ def rnd_molecule(rng, shape):
                 P.append((rnd_coord(rng, 4), rnd_coord(rng, 4), off))
             if len(set(P[i][2] for i in range(n))) < 3:
                 continue
+        elif shape == "flushzone":
+            # five equal atoms built in their own inertial frame, (a,0,e) (-a,0,e) (0,b,-c-e) (0,-b,-c-e) (0,0,2c): centred, diagonal
+            # tensor, and the first two atoms lie |e| in [5e-8, 3.5e-7] off a principal plane - above the phase threshold 1e-8,
+            # below float_prep's zero-flip threshold 5.12e-7 - while the others are far from it; handed over in a rotated, shifted
+            # position so that nothing is axis-aligned in the input
+            # two pairs related by the twofold axis z, (a,b,e) (-a,-b,e) (p,q,-c-e) (-p,-q,-c-e) with ab + pq = 0, and (0,0,2c): the
+            # first atom is far from the planes x = 0 and y = 0 and in the flush zone of the plane z = 0
+            a, b, p, c = (Fr(rng.randint(2, 12), 4) for _ in range(4))
+            q = -a * b / p
+            e = Fr(rng.choice([-1, 1]) * rng.choice([5, 8, 12, 20, 35]), 10 ** 8)
+            mom = sorted([2 * (b * b + q * q) + 6 * c * c, 2 * (a * a + p * p) + 6 * c * c, 2 * (a * a + b * b + p * p + q * q)])
+            if min(mom[1] - mom[0], mom[2] - mom[1]) < Fr(1, 2) or max(abs(q), 2 * c) > 4:
+                continue
+            z = Fr(0)
+            base = [(a, b, e), (-a, -b, e), (p, q, -c - e), (-p, -q, -c - e), (z, z, 2 * c)]
+            P = move(base, rnd_motion(rng))
+            # keep the literals short: 12 decimals (the rotation is rational, the rounding error 1e-12 is far below 1e-8)
+            P = [tuple(Fr(round(x * 10 ** 12), 10 ** 12) for x in p) for p in P]
+            n = 5
         elif shape == "symtop":
             # a square of equal atoms in the xy plane plus atoms on the z axis: I_xx = I_yy exactly
             r = Fr(rng.randint(1, 4), rng.choice([1, 2]))
@@ -388,7 +498,9 @@ def rnd_molecule(rng, shape):
             P = [tuple(rnd_coord(rng) for _ in range(3)) for _ in range(n)]
         if len(set(P)) == len(P) and far_enough(P):
             break
-    if shape in ("symtop", "sphtop"):
+    if shape == "flushzone":
+        syms, massn = [rng.choice(["He", "C", "F", "Cl"])] * 5, None
+    elif shape in ("symtop", "sphtop"):
         e = rng.choice(["H", "C", "F", "Cl"])
         syms = [e] * 4 + [rng.choice(list(ISOTOPES)) for _ in range(n - 4)] if shape == "symtop" else [e] * 6
         massn = None
@@ -398,10 +510,10 @@ def rnd_molecule(rng, shape):
     case = {"symbols": syms, "geom": [[fr_s(c) for c in p] for p in P], "shape": shape}
     if massn:
         case["mass_numbers"] = massn
-    elif shape not in ("symtop", "sphtop") and rng.random() < 0.3:
+    elif shape not in ("symtop", "sphtop", "flushzone") and rng.random() < 0.3:
         # explicit masses must lie within 0.5 of the element's isotope range to be accepted; stay close to an isotope
         case["masses"] = [round(ISOTOPES[s][0] * rng.choice([1.0, 1.01, 0.99]) + rng.choice([0, 0.125, -0.125, 0.25]), 3) for s in syms]
-    if rng.random() < 0.3 and n > 1 and shape not in ("symtop", "sphtop"):
+    if rng.random() < 0.3 and n > 1 and shape not in ("symtop", "sphtop", "flushzone"):
         real = [rng.random() < 0.7 for _ in range(n)]
         if not any(real):
             real[0] = True
@@ -421,6 +533,8 @@ def rnd_molecule(rng, shape):
             fl["fix_orientation"] = False
         case["flags"] = fl
     case["motion"] = rnd_motion(rng)
+    if rng.random() < 0.12:
+        case["geometry_noise"] = rng.choice([4, 6, 6])       # the constructor's geometry_noise keyword
     return case
 
 
@@ -442,9 +556,17 @@ def gen_cases(ctx):
                       "motion": {"q": [2, 1, -1, 3], "t": ["3/2", "-1", "1/4"]}})
     cases.append({"stream": "corpus", "shape": "diatomic", "symbols": ["He", "He"], "geom": z((0, 0, 0), (0, 0, 2)),
                   "motion": {"q": [1, 1, 0, 0], "t": ["0", "0", "0"]}})
+    # the known finding C16-phase-flush-zone: He5 in its inertial frame (turned by a rational rotation), atoms 0 and 1 lying 2e-7 off
+    # the plane normal to the lightest axis; they decide the phase and are stored as 0.0
+    fz = [(Fr(1), Fr(0), Fr(2, 10 ** 7)), (Fr(-1), Fr(0), Fr(2, 10 ** 7)), (Fr(0), Fr(2), Fr(-3) - Fr(2, 10 ** 7)),
+          (Fr(0), Fr(-2), Fr(-3) - Fr(2, 10 ** 7)), (Fr(0), Fr(0), Fr(6))]
+    fzm = move(fz, {"q": [2, 1, -1, 3], "t": ["3/2", "-1", "1/4"]})
+    cases.append({"stream": "corpus", "shape": "flushzone", "symbols": ["He"] * 5,
+                  "geom": [[fr_s(Fr(round(x * 10 ** 12), 10 ** 12)) for x in p] for p in fzm],
+                  "motion": {"q": [1, 2, 0, -1], "t": ["1/2", "-3", "7/4"]}})
     cases.append({"stream": "corpus", "shape": "atom", "symbols": ["Ne"], "geom": z((1, 2, 3)), "motion": {"q": [1, 0, 1, 0], "t": ["1", "1", "1"]}})
     plan = [("asym", 6000 if T else 300), ("planar", 1500 if T else 80), ("linear", 1200 if T else 60), ("symtop", 1200 if T else 60),
-            ("sphtop", 200 if T else 15), ("nearplanar", 800 if T else 50), ("diatomic", 400 if T else 30), ("atom", 60 if T else 8)]
+            ("sphtop", 200 if T else 15), ("nearplanar", 800 if T else 50), ("flushzone", 300 if T else 25), ("diatomic", 400 if T else 30), ("atom", 60 if T else 8)]
     for shape, k in plan:
         for _ in range(k):
             c = rnd_molecule(rng, shape)
@@ -488,6 +610,16 @@ def correspond(ctx):
             corr.hit("route_psi4_text")
         if trm.pop("near_threshold", False):
             corr.hit("model_skipped_near_phase_threshold")
+        if trm.pop("near_threshold_stored", False):
+            corr.hit("stored_model_skipped_near_a_threshold")
+        if np.any((obs["g1"] == 0) & (np.abs(obs["raw"]) >= 0.5e-8)):
+            corr.hit("stored_zero_flip_active")
+        if np.any((obs["g1"] == 0) & (np.abs(obs["raw"]) >= NOISE)):
+            corr.hit("stored_zero_flip_of_a_coordinate_above_the_phase_threshold")
+        if case.get("geometry_noise") is not None:
+            corr.hit("geometry_noise_%d" % case["geometry_noise"])
+        if obs.get("sign_free_axes"):
+            corr.hit("columns_compared_up_to_sign_(phase_decided_by_an_atom_stored_as_zero)", obs["sign_free_axes"])
         if len(case["symbols"]) >= 2:
             corr.nontriv({k: v for k, v in case.items() if k != "stream"})
         if ctx.rng.random() < 0.004:
@@ -501,7 +633,33 @@ def correspond(ctx):
             corr.hit("oracle_only")
             continue
         for chk, term in trm.items():
+            if chk == "chk_stored":
+                # the stored-geometry model costs as much as the body: corpus, flush-zone / near-planar shapes, caller-chosen
+                # geometry_noise always; every third one of the rest
+                if (case["stream"] in ("corpus", "flushzone", "nearplanar") or case.get("geometry_noise") is not None
+                        or corr.streams.get(case["stream"], 0) % 3 == 0):
+                    for t in term:
+                        buckets[chk].append((t, case))
+                continue
             buckets[chk].append((term, case))
+    # the model's ZeroDivisionError branch (np.average with weights summing to zero): unreachable for validated molecules (every
+    # mass is positive), reached here through validate=False
+    from qcelemental.models import Molecule
+    for k, (masses, geom) in enumerate([([0.0, 0.0], [0, 0, 0, 0, 0, 2.0]), ([1.0, -1.0], [0, 0, 0, 0, 1.5, 2.0]),
+                                        ([2.0, -1.0, -1.0], [0, 0, 0, 0, 1.0, 2.0, 1.0, 2.0, -1.0]), ([0.5, 0.25, -0.75], [1, 0, 0, 0, 1, 0, 0, 0, 1.0])]):
+        zc = {"stream": "zero_total_mass", "shape": "zero_total_mass", "symbols": ["He"] * len(masses), "masses": masses, "geom_float": geom}
+        try:
+            g = Molecule(orient=True, validate=False, symbols=zc["symbols"], geometry=geom, masses=masses).geometry
+            exp = "(Some " + clist(np.array(g, dtype=float).reshape(-1, 3), cvec) + ")"
+        except ZeroDivisionError:
+            exp = "None"
+            corr.hit("impl_raises_ZeroDivisionError")
+        except Exception as e:
+            corr.errors.append(f"zero total mass: unexpected {e!r}")
+            continue
+        corr.count("zero_total_mass")
+        atoms = clist([f"({cvec(p)}, {cfl(m)})" for p, m in zip(np.array(geom, dtype=float).reshape(-1, 3), masses)])
+        buckets["chk_orient_gen"].append((f"({atoms}, (((0, 0, 0), (mident QK))), {exp})", zc))
     corr.sample({"case": cases[1]})
     ctx.log(f"{len(cases)} molecules through the implementation; evaluating the model: " + ", ".join(f"{k}={len(v)}" for k, v in buckets.items()))
     from concurrent.futures import ThreadPoolExecutor
@@ -556,28 +714,58 @@ def replay(ctx, rp):
     return {"case": case, "failures": fails, "fails": bool(fails)}
 
 
-KNOWN = {}
+def known_flush_zone(fc):
+    """C16-phase-flush-zone, narrowly: the stored column shows the flush-zone pattern (see flush_zone_pattern) - either directly (the
+    stored sign convention fails on that axis) or through its consequence that orienting the stored molecule again flips exactly
+    that column (twice = -once on the atoms that are visible, everything else unchanged)."""
+    what, ob = fc.get("what", ""), fc.get("observed")
+    if not isinstance(ob, dict) or "raw" not in ob:
+        return False
+    if what.startswith("sign convention violated on the stored geometry"):
+        return flush_zone_pattern(ob["raw"], ob.get("stored", []))
+    if what == "orienting twice changes the geometry":
+        # the first or the second orientation was decided by an atom that its own result stores as 0.0, and the column is negated
+        once, twice = ob.get("once", []), ob.get("twice", [])
+        return ((flush_zone_pattern(ob["raw"], once) or flush_zone_pattern(ob.get("raw2", []), twice)) and len(once) == len(twice)
+                and all(abs(a + b) <= 1.2e-6 for a, b in zip(once, twice)))
+    return False
 
-TECHNIQUE = ("Coq proofs (ring/field over an abstract field + induction over the atom list; Reals for the phase convention) about a hand "
-             "model of _orient_molecule_internal using the inertia tensor regenerated from the source; eigh as a specified parameter; "
-             "differential correspondence + property oracle")
+
+KNOWN = {"C16-phase-flush-zone": known_flush_zone}
+
+TECHNIQUE = ("Coq proofs (ring/field over an abstract field + induction over the atom list; Reals for the phase convention, frame "
+             "uniqueness and the stored geometry) about Gallina code translated on every run from _inertial_tensor, the body of "
+             "_orient_molecule_internal, float_prep and the orient branch of Molecule.__init__ (fail-closed translator), proved equal to a "
+             "hand model; eigh and np.around as specified parameters; differential correspondence + property oracle")
 DESIGN_REF = "DESIGN.md §6 C16"
 LEVEL_TEXT = (
-    "Machine-checked (Coq 8.16.1) for every number of atoms and every mass assignment, with np.linalg.eigh as a parameter constrained "
-    "only by its specification on the tensor(s) it is applied to. Over any field: C16_isometry (the new geometry is one map applied to "
-    "all positions that preserves |p-q|^2 for all points), C16_com_at_origin, C16_inertia_transforms (I(xV) = V^T I(x) V for the tensor "
-    "generated from Molecule._inertial_tensor), C16_inertia_diagonal_ascending, C16_masses_untouched. Over the reals: "
-    "C16_phase_convention(_orient) (on each axis the first atom with |coordinate| >= 1e-8 is positive), C16_frame_unique (distinct "
-    "moments: a copy moved by any orthogonal matrix and translation orients to the same coordinates; on each axis the columns are equal, "
-    "or all entries are below 1e-8 and the columns are opposite) and C16_orient_idempotent (orienting twice, same sense), both for "
-    "arbitrary eigh answers meeting the specification. Each run feeds numpy's own eigh answer to the model, checks the eigh "
-    "specification on it numerically, compares the model's geometry with _orient_molecule_internal, and evaluates every claim on the "
-    "implementation (incl. uniqueness / orient-twice for asymmetric tops and the three construction routes).")
+    "Machine-checked (Coq 8.16.1) for every number of atoms and every mass assignment (non-zero total), with np.linalg.eigh as a "
+    "parameter constrained only by its specification on the tensor(s) it is applied to. The body of _orient_molecule_internal is "
+    "translated from the source (Gen/OrientBody.v) and proved equal to the model for all inputs (C16_generated_body_is_model, "
+    "C16_eager_phase_loop_is_deferred); what the public entry points store - float_prep of it, Gen/OrientStore.v - likewise "
+    "(C16_generated_store_is_model). Over any field: C16_isometry (one map applied to all positions, preserving |p-q|^2 for all "
+    "points), C16_com_at_origin, C16_inertia_transforms, C16_inertia_diagonal_ascending, C16_masses_untouched. Over the reals: "
+    "C16_phase_convention(_orient) (internal result: on each axis the first atom with |coordinate| >= 1e-8 is positive); "
+    "C16_stored_sign_convention / C16_stored_first_nonzero_positive (returned molecule: the first atom with a non-zero coordinate is "
+    "positive provided no earlier atom lies in the flush zone 1e-8 <= |x| < 5^-9) and C16_stored_sign_convention_flush_zone_refuted "
+    "(without that proviso the clause is false: known finding C16-phase-flush-zone, replayed on the implementation every run); "
+    "C16_frame_unique (distinct moments: a copy moved by any orthogonal matrix and translation orients to the same coordinates, "
+    "columns equal or entirely below 1e-8 and opposite), C16_mirror_image_same_frame, C16_orient_idempotent; for symmetric tops "
+    "C16_frame_unique_up_to_eigenspace and C16_orient_twice_up_to_eigenspace (the two results differ by one orthogonal matrix "
+    "commuting with the spectrum - nothing more is promised). Each run feeds numpy's own eigh answer to the generated body and the "
+    "generated store, checks the eigh specification on it numerically, compares with _orient_molecule_internal and with the stored "
+    "geometry of orient_molecule() / Molecule(orient=True, geometry_noise=...), and evaluates every clause on the implementation "
+    "(all construction routes, caller's arrays not modified).")
 LEVEL_NOTE = (
-    "Trusted: Coq kernel + vm_compute; the tensor translator; the hand model of centring/rotation/phase loop (tied by correspondence; the "
-    "in-place column flips are modelled as signs applied after the scan); LAPACK eigh (specified, its answer checked numerically each "
-    "run); numpy arithmetic and the 8-decimal rounding (tolerances; uniqueness/idempotence on the implementation only up to the rounding "
-    "amplified by the eigenvector conditioning). Non-geometric fields do not occur in the model (the code passes them through unchanged); "
-    "the oracle compares every field of Molecule.dict(). Real-number theorems depend on the Reals axioms; the others are closed. "
-    "Observation (not part of the property): the map applied is orthogonal but not necessarily proper - orientation sends a molecule and "
-    "its mirror image to the same coordinates (C16_frame_unique holds for improper Rm), i.e. it can invert chirality.")
+    "Clause map: distances -> C16_isometry (stored: oracle 1e-7); non-geometric fields -> C16_masses_untouched + translator "
+    "(only geometry/masses consulted, orient_molecule = Molecule(orient=True, **self.dict())) + oracle on every dict field; centre of "
+    "mass -> C16_com_at_origin; diagonal ascending -> C16_inertia_diagonal_ascending; sign convention -> C16_phase_convention_orient "
+    "(internal), C16_stored_sign_convention (stored, flush zone excluded), _flush_zone_refuted; uniqueness -> C16_frame_unique / "
+    "_up_to_eigenspace (exact, on the internal result; 'within the rounding' on stored geometries is oracle-only, tolerance amplified "
+    "by the eigenvector conditioning); twice -> C16_orient_idempotent / C16_orient_twice_up_to_eigenspace (second orientation applied "
+    "to the internal result; orient_molecule() twice re-orients the rounded geometry: oracle only). "
+    "Trusted: Coq kernel + vm_compute; the translators; the primitives of Common/Geo3Loop.v; LAPACK eigh (specified, its answer "
+    "checked numerically each run); np.around (specified: within half a unit); numpy arithmetic (tolerances). Non-geometric fields do "
+    "not occur in the model. Real-number theorems depend on the Reals axioms and Classical_Prop.classic; part A is closed. "
+    "Observation: the map applied is orthogonal but not necessarily proper - orientation sends a molecule and its mirror image to the "
+    "same coordinates (C16_frame_unique holds for improper Rm), i.e. it can invert chirality.")
